@@ -22,7 +22,8 @@ func init() {
 			"C13.4 channel numbers: binding.number has one writer fed by a counter that stays in [0x4000,0x7FFF] (induction); bindings are created and looked up under the manager's lock; " +
 			"C13.5 inbound provenance: the (payload, peer) pair handed to UDPConn.HandleInbound is (DATA, XOR-PEER-ADDRESS) of one message, resp. (decoded ChannelData payload, address bound to the decoded number); ReadFrom's select has the data, deadline and close cases; " +
 			"C13.6 the inbound path never blocks on a channel (C09.4); " +
-			"C13.7 (=C05.5) what is queued for ReadFrom is a private copy of the inbound payload, never a slice of the reusable socket read buffer.",
+			"C13.7 (=C05.5) what is queued for ReadFrom is a private copy of the inbound payload, never a slice of the reusable socket read buffer; " +
+			"C13.8 (=C14.8) a binding is marked refreshed only after a confirmed bind; the read-deadline timer is never replaced.",
 		NotCovered: "uniqueness of channel numbers beyond 16384 live peers (the counter wraps), deadline timing, what the server answers.",
 		Run:        runC13,
 	})
@@ -326,20 +327,10 @@ func runC13(c *Ctx) {
 			fn := cs.Parent()
 			c.Anchor("C13.3", fname(fn))
 			good, how := false, ""
+			if w.afterSuccessfulBind(cs, bindFn) {
+				good, how = true, "after bind(bound) == nil"
+			}
 			for _, f := range w.factsAt(cs) {
-				// (a) bind == nil
-				if v, isNil, ok := nilFact(f); ok && isNil {
-					ls, all := w.deepLeaves(v, func(h *ssa.Function) bool { return h == bindFn }, 3)
-					for _, l := range ls {
-						lc, _ := callOf(l)
-						if lc == nil || lc.Call.StaticCallee() != bindFn {
-							all = false
-						}
-					}
-					if all && len(ls) > 0 {
-						good, how = true, "after bind(bound) == nil"
-					}
-				}
 				// (b) start state known in OK
 				if f.Op == "true" && f.Truth {
 					if wc, _ := callOf(f.X); wc != nil && wc.Call.StaticCallee() == wasReady && wrOK {
@@ -531,6 +522,8 @@ func runC13(c *Ctx) {
 
 	// ---- C13.7
 	ruleInboundCopy(c, "C13.7")
+	// ---- C13.8
+	ruleBindingFreshness(c, "C13.8")
 }
 
 // ruleClientNumbers: shared by C08.4 and C13.4.
@@ -757,4 +750,90 @@ func entryEdgeInvisibleAfterLoop(phi *ssa.Phi, i int) bool {
 		return val == stayTrue
 	}
 	return false
+}
+
+// afterSuccessfulBind: instruction at is dominated by v == nil where every value v can take
+// is the error result of (*UDPConn).bind — the server has confirmed the ChannelBind.
+func (w *World) afterSuccessfulBind(at ssa.Instruction, bindFn *ssa.Function) bool {
+	for _, f := range w.factsAt(at) {
+		if v, isNil, ok := nilFact(f); ok && isNil {
+			ls, all := w.deepLeaves(v, func(h *ssa.Function) bool { return h == bindFn }, 3)
+			for _, l := range ls {
+				lc, _ := callOf(l)
+				if lc == nil || lc.Call.StaticCallee() != bindFn {
+					all = false
+				}
+			}
+			if all && len(ls) > 0 {
+				return true
+			}
+		}
+	}
+	return false
+}
+
+// ruleBindingFreshness (C13.8 / C14.8): the timestamp that decides when a binding is
+// refreshed moves only when the server confirmed a ChannelBind (or at creation); the read
+// deadline timer a blocked ReadFrom selects on is never replaced.
+func ruleBindingFreshness(c *Ctx, rule string) {
+	w := c.W
+	c.Rule(rule, "binding freshness: (*binding).setRefreshedAt is called only after a successful bind() of that binding (and binding._refreshedAt is otherwise written only while the binding is constructed) — traffic does not postpone the periodic re-bind; the read-deadline timer of the relayed conn is assigned only at construction (a blocked ReadFrom keeps selecting on the same timer)", 2)
+	bindFn := w.Func("client", "UDPConn", "bind")
+	setRef := w.Func("client", "binding", "setRefreshedAt")
+	c.Anchor(rule, "setRefreshedAt callers")
+	bad := ""
+	n := 0
+	for _, cs := range w.callsTo(setRef) {
+		if cs.Parent().Synthetic != "" {
+			continue
+		}
+		n++
+		if !w.afterSuccessfulBind(cs, bindFn) {
+			bad = "setRefreshedAt is called at " + w.instrPos(cs) + " in " + fname(cs.Parent()) + " without a successful bind() dominating it: the binding looks fresh although the server has not renewed it, so the 5-minute re-bind is postponed until the server's binding expires"
+		}
+	}
+	if bad == "" && n >= 1 {
+		c.OK(rule, fname(setRef), "setRefreshedAt callers", w.pos(setRef.Pos()), fmt.Sprintf("%d call(s), each after bind(bound) == nil", n))
+	} else {
+		if bad == "" {
+			bad = "setRefreshedAt is never called: bindings are never marked refreshed"
+		}
+		c.Bad(rule, fname(setRef), "setRefreshedAt callers", w.pos(setRef.Pos()), bad)
+	}
+	// _refreshedAt written only by setRefreshedAt and construction
+	c.Anchor(rule, "_refreshedAt writers")
+	rf := w.Field("client", "binding", "_refreshedAt")
+	badW := ""
+	for _, fn := range w.ModFns {
+		w.eachInstr(fn, func(in ssa.Instruction) {
+			st, ok := in.(*ssa.Store)
+			if !ok {
+				return
+			}
+			fa, ok := st.Addr.(*ssa.FieldAddr)
+			if !ok || fieldOf(fa) != rf {
+				return
+			}
+			if fn == setRef {
+				return
+			}
+			if al, isAl := rootAddr(fa).(*ssa.Alloc); isAl && freshUnescapedAt(al, st) {
+				return
+			}
+			badW = "binding._refreshedAt is written at " + w.instrPos(in) + " outside setRefreshedAt and construction"
+		})
+	}
+	if badW == "" {
+		c.OK(rule, fname(setRef), "_refreshedAt writers", w.pos(setRef.Pos()), "written by setRefreshedAt and at construction only")
+	} else {
+		c.Bad(rule, fname(setRef), "_refreshedAt writers", w.pos(setRef.Pos()), badW)
+	}
+	// read deadline timer
+	c.Anchor(rule, "readTimer")
+	rt := w.Field("client", "allocation", "readTimer")
+	if w.immutableField(rt) {
+		c.OK(rule, "client.allocation", "readTimer", "-", "assigned only while the conn is constructed; SetReadDeadline resets the same timer")
+	} else {
+		c.Bad(rule, "client.allocation", "readTimer", "-", "the read-deadline timer is replaced after construction: a ReadFrom that is already blocked selects on the old timer's channel and never sees the new deadline")
+	}
 }
